@@ -1,8 +1,65 @@
-(* C09 -- Regex: every generated string matches the expression. (placeholder: theorems are added
-   in coq/RegexProofs.v as they are closed) *)
-From Fences Require Import Regex.
+(* C09 -- Regex: every generated string matches the expression. *)
+From Fences Require Import Regex GraphSpec GraphLinks GraphExec GraphAnalysis GraphTheorems GraphRun GraphOpt RegexLang.
+
+(* Every complete execution of the graph that parse_regex builds for an expression r of the dialect -- after
+   optimize() and the input / output wrappers, for every path, generated or not, and whatever the nesting of
+   groups, classes and quantifiers -- yields a string that r matches in full (specification: [matches]). *)
+Theorem C09_language : forall fuel r st root f p tr,
+  parse_regex fuel r = Ok (st, root) ->
+  exec f (b_graph st) root p = Ok (tr, []) ->
+  matches r (output_of st tr).
+Proof.
+  intros fuel r st root f p tr H X.
+  apply exec_Run in X. apply Run_Run0 in X. destruct X as (c & _ & R).
+  exact (parse_regex_lang fuel r st root H c tr R).
+Qed.
+Print Assumptions C09_language.
+
+(* every leaf of such a graph is a valid leaf ... *)
+Theorem C09_leaves_valid : forall fuel r st root n v,
+  parse_regex fuel r = Ok (st, root) -> kind_of (b_graph st) n = KLeaf v -> v = true.
+Proof. intros fuel r st root n v H. exact (parse_regex_leaves_valid fuel r st root H n v). Qed.
+Print Assumptions C09_leaves_valid.
+
+(* ... hence every entry that generate_paths yields for it is labelled valid and its string matches r
+   (well-formedness of the concrete graph is certified by wfb, stream W) *)
+Theorem C09_entries : forall fuel r st root lr0 lv0 a es status e,
+  parse_regex fuel r = Ok (st, root) -> wf (b_graph st) root ->
+  generate_paths V_fixed fuel (b_graph st) root lr0 lv0 = Ok (a, (es, status)) -> In e es ->
+  evalid e = true /\
+  exists tr, exec fuel (b_graph st) root (epath e) = Ok (tr, []) /\ matches r (output_of st tr).
+Proof.
+  intros fuel r st root lr0 lv0 a es status e H W GP He.
+  destruct (label_agrees V_fixed (b_graph st) root W fuel lr0 lv0 a es status (or_introl eq_refl) GP eq_refl e He)
+    as (tr & X & [_ L]).
+  split.
+  - apply L. unfold invalid_leaves.
+    assert (G : forall l, filter (leaf_is (b_graph st) false) l = []).
+    { induction l as [|x l IH]; [reflexivity|]. cbn [filter].
+      destruct (leaf_is (b_graph st) false x) eqn:E; [|exact IH].
+      unfold leaf_is in E. destruct (kind_of (b_graph st) x) as [v| |] eqn:K; try discriminate.
+      rewrite (parse_regex_leaves_valid fuel r st root H x v K) in E. discriminate. }
+    apply G.
+  - exists tr. split; auto. eapply C09_language; eauto.
+Qed.
+Print Assumptions C09_entries.
 
 (* {n,m} with n > m, and ranges a-b with a > b, are rejected with the library's exception *)
 Theorem C09_bad_bounds_rejected : forall n m, m < n -> rep_of (QRange n (Some (Some m))) = LibErr ERegex.
 Proof. intros n m H. simpl. destruct (Nat.ltb_spec m n); [reflexivity|lia]. Qed.
 Print Assumptions C09_bad_bounds_rejected.
+
+(* non-vacuity: (ab|c){1,2}[x-z] is parsed, has executions, and one of them yields "abx" *)
+Definition c09_example : regex :=
+  RAlt1 (SCons (IGroup false (RAlt (SCons (IChar 97 None) (SOne (IChar 98 None))) (RAlt1 (SOne (IChar 99 None))))
+                        (Some (QRange 1 (Some (Some 2)))))
+               (SOne (IClass (CRange 120 122) [] None))).
+Example C09_nonvacuous : exists st root p tr,
+  parse_regex 100 c09_example = Ok (st, root) /\ exec 100 (b_graph st) root p = Ok (tr, []) /\
+  output_of st tr = [97; 98; 120].
+Proof.
+  destruct (parse_regex 100 c09_example) as [[st root]| | |] eqn:E; try (vm_compute in E; discriminate).
+  exists st, root. vm_compute in E. inversion E; subst. clear E.
+  eexists [0; 0; 0; 0; 0; 0]. eexists. split; [reflexivity|].
+  split; vm_compute; reflexivity.
+Qed.
